@@ -28,6 +28,7 @@ from ..core import HarnessAbort
 from ..ref import midi1
 
 ID = 'C18'
+ANCHORS = ['mido.sockets', 'mido.ports']
 LEVEL = 'fault_enumeration'
 RULE = ('message sequences (1-8 messages of all types incl. sysex up to 300 bytes) x EVERY cut '
         'offset 0..len(stream) at which the peer disconnects x segmentations of the bytes before '
